@@ -100,6 +100,24 @@ int vf_run_case(Src &s, Report &r) {
 		int n = vbi_raw_decode(&lrd, raw, out);
 		if (n < 0 || (unsigned) n > lines) rc = r.fail("C05:more-records-than-lines", "vbi_raw_decode returned %d records for %u lines", n, lines);
 		free(out);
+		// a change of the image geometry (vbi_raw_decoder_resize): afterwards the new parameters describe the image and the output array
+		if (!rc && s.chance(1, 2)) {
+			int st2[2] = { lrd.start[0], lrd.start[1] }; unsigned ct2[2];
+			unsigned how = s.pick(4);
+			ct2[0] = how == 0 ? (unsigned) lrd.count[0] : s.pick((unsigned) lrd.count[0] + 3);
+			ct2[1] = how == 0 ? s.pick((unsigned) lrd.count[1] + 1) : how == 1 ? (unsigned) lrd.count[0] : s.pick((unsigned) lrd.count[1] + 3);
+			if (lrd.interlaced) ct2[1] = ct2[0];
+			if (ct2[0] + ct2[1] == 0) ct2[0] = 1;
+			unsigned lines2 = ct2[0] + ct2[1];
+			r.say("resize %d+%d -> %u+%u\n", lrd.count[0], lrd.count[1], ct2[0], ct2[1]);
+			vbi_raw_decoder_resize(&lrd, st2, ct2);
+			uint8_t *raw2 = (uint8_t *) malloc(lines2 * bpl); for (unsigned y = 0; y < lines2; ++y) memcpy(raw2 + y * bpl, raw + (lines ? y % lines : 0) * bpl, bpl);
+			vbi_sliced *out2 = (vbi_sliced *) malloc(sizeof(vbi_sliced) * lines2);
+			int n2 = vbi_raw_decode(&lrd, raw2, out2);
+			if (n2 < 0 || (unsigned) n2 > lines2) rc = r.fail("C05:more-records-than-lines", "after vbi_raw_decoder_resize to %u+%u lines vbi_raw_decode returned %d records", ct2[0], ct2[1], n2);
+			free(out2); free(raw2);
+			r.cls("legacy-decoder-resized");
+		}
 		vbi_raw_decoder_destroy(&lrd);
 	}
 	// single line slicers on exactly sized line copies
